@@ -661,3 +661,5 @@ func signatureOf(c *ssa.CallCommon) *types.Signature {
 }
 
 type typesStruct = types.Struct
+
+type ssaGlobal = ssa.Global
